@@ -1,6 +1,7 @@
 //! C08 — length- and close-delimited response bodies arrive verbatim, never over-read.
 
 use serde_json::json;
+#[allow(unused_imports)]
 use ureq_proto::http::Method;
 use ureq_proto::BodyMode;
 
@@ -23,6 +24,8 @@ struct Case {
     steps: Vec<(usize, usize)>,
     req_v10: bool,
     resp_v10: bool,
+    /// how the flow got to the head (drive::recv::Reader::new_route)
+    route: usize,
 }
 
 fn run(case: &Case, st: &mut Stats) -> Result<(), String> {
@@ -32,7 +35,10 @@ fn run(case: &Case, st: &mut Stats) -> Result<(), String> {
     };
     // Content-Length: 0 has no body state on the Flow API (C06 owns that); the Call API still hands out a reader
     let api = if case.n == Some(0) { Api::Call } else { case.api };
-    let mut r = Reader::new(api, &Method::GET, case.req_v10, head.as_bytes())?;
+    let mut r = Reader::new_route(api, case.route, case.req_v10, head.as_bytes())?;
+    if case.route > 0 && api == Api::Flow {
+        st.class("body_reached_after_interim_100_or_split_head");
+    }
     // the stream: body bytes (as many as we are willing to materialise) followed by a next response
     let body_avail: usize = match case.n {
         Some(n) => n.min(80_000) as usize,
@@ -167,7 +173,7 @@ fn run(case: &Case, st: &mut Stats) -> Result<(), String> {
             st.sample(json!({"api": format!("{:?}", case.api), "content_length": case.n, "steps_arrival_out": case.steps}));
         }
     }
-    st.describe(|| json!({"api": format!("{:?}", case.api), "content_length": case.n, "req_http10": case.req_v10, "resp_http10": case.resp_v10, "steps_arrival_out": case.steps}));
+    st.describe(|| json!({"api": format!("{:?}", case.api), "content_length": case.n, "route_to_the_head": case.route, "req_http10": case.req_v10, "resp_http10": case.resp_v10, "steps_arrival_out": case.steps}));
     Ok(())
 }
 
@@ -216,8 +222,11 @@ fn exec_random(t: &mut Tape, st: &mut Stats) -> Result<(), String> {
     }
     let req_v10 = t.chance(15);
     let resp_v10 = t.chance(25);
+    // the flow may have got to the head on another route: a late 100 in the same window as the head or before it, a 100 seen
+    // while awaiting it, the head in two pieces
+    let route = if t.chance(30) { t.range(1, 4) } else { 0 };
     st.case_digest = t.digest();
-    run(&Case { api, n, steps, req_v10, resp_v10 }, st)
+    run(&Case { api, n, steps, req_v10, resp_v10, route }, st)
 }
 
 /// Small-scope exhaustive: N in 0..=4 and close-delimited x all 3-step schedules over (arrival 0..3+, out 0..3).
@@ -237,8 +246,9 @@ fn exec_small(t: &mut Tape, st: &mut Stats) -> Result<(), String> {
     }
     steps.push((100, 64));
     steps.push((0, 64));
+    let steps_sum: usize = steps.iter().map(|s| s.0 + s.1).sum();
     st.case_digest = t.digest();
-    run(&Case { api, n, steps, req_v10: false, resp_v10: false }, st)
+    run(&Case { api, n, steps, req_v10: false, resp_v10: false, route: (n.unwrap_or(5) as usize + steps_sum) % 5 }, st)
 }
 
 pub static DEF: PropDef = PropDef {
@@ -246,7 +256,7 @@ pub static DEF: PropDef = PropDef {
     rule: "random: Content-Length N in {0..40, 41..3000, around 255/256/4096/10240/65535/65536/70000, 2^32+5, 2^63, u64::MAX} or no \
 framing (close-delimited) x histories of 1..30 reads (arrival increment, output size) with increments {0..8, exactly to the body \
 end, past the body end into a following response, random, 0} and buffers {1..7, large, random, 0, remaining-0..2}, on \
-Flow<RecvBody> and Call<RecvBody>, request/response versions 1.0/1.1. Reference: every read returns (k,k), k = min(window, space, \
+Flow<RecvBody> and Call<RecvBody>, request/response versions 1.0/1.1; 30 % of the flows reach the head on another route (late 100 Continue in the same window as the head or in a call of its own, 100 seen while awaiting it, head in two pieces) and the reported counts must add up to the bytes that precede the body. Reference: every read returns (k,k), k = min(window, space, \
 remaining) [no remaining term when close-delimited], bytes equal; never more than N consumed; ended/can_proceed <=> N delivered; \
 close-delimited: can_proceed always, never ended, Cleanup verdict must-close with a reason. enumeration 'small': N in 0..=4 and \
 close-delimited x all 3-read schedules over 5 increments x 4 buffer sizes x both APIs. non-trivial = history with >= 3 reads whose \
